@@ -47,6 +47,9 @@ func genC08(seed uint64) *Scenario {
 		}
 	}
 	n := pick(r, []int{2, 3, 4, 6, 8, 12, 20, 30})
+	if deep() {
+		n = pick(r, []int{3, 6, 12, 30, 60, 100})
+	}
 	churnPM := pick(r, []int{0, 150, 400})
 	var ops []Op
 	for i := 0; i < n; i++ {
